@@ -913,11 +913,74 @@ def _run_reloads(env, acc):
                         break
 
 
+SEPARATOR_CHARS = ["\x0c", "\x0b", "\x1c", "\x1d", "\x1e", "\x85", "\u2028", "\u2029"]
+SEPARATOR_TEMPLATES = {
+    # a line of its own between two definitions (a form feed is white space for the tokenizer: page breaks in old code bases)
+    "own-line": "def f():\n    return 1\n{c}\ndef g():\n    \"\"\"Doc g.\"\"\"\n    return 2\n\n\nclass K:\n    x = 1\n\n    def m(self):\n        return 3\n",
+    "in-comment": "def f():  # page{c}break\n    return 1\n\ndef g():\n    \"\"\"Doc g.\"\"\"\n    return 2\n\n\nclass K:\n    x = 1  # a{c}b\n\n    def m(self):\n        return 3\n",
+    "in-string": "def f():\n    return 'a{c}b'\n\ndef g():\n    \"\"\"Doc g.\"\"\"\n    return 2\n\n\nclass K:\n    x = 'a{c}b'\n\n    def m(self):\n        return 3\n",
+    "in-docstring": "def f():\n    return 1\n\ndef g():\n    \"\"\"Doc g.\n\n    page{c}break\n    \"\"\"\n    return 2\n\n\nclass K:\n    x = 1\n\n    def m(self):\n        return 3\n",
+}
+
+
+def _run_separators(env, acc):
+    """Files that contain characters `str.splitlines` treats as line ends but the Python parser does not (form feed, vertical tab, FS/GS/RS, NEL, LS, PS),
+    and files written with CRLF / CR line ends: every definition's span, sliced out of the source, is that very definition; docstrings are the ones CPython sees."""
+    import ast
+
+    from mc.core import sandbox
+
+    g = env["griffe"]
+    for tname, template in SEPARATOR_TEMPLATES.items():
+        for c in SEPARATOR_CHARS + [""]:
+            for nl in ("\n", "\r\n", "\r"):
+                if c == "" and (nl == "\n" or tname != "own-line"):
+                    continue
+                raw = template.replace("{c}", c).replace("\n", nl)
+                with sandbox.scratch_dir("c01s") as d:
+                    path = os.path.join(d, "sepm.py")
+                    with open(path, "w", encoding="utf8", newline="") as f:
+                        f.write(raw)
+                    with open(path, encoding="utf8") as f:
+                        text = f.read()  # (universal newlines: what the import system compiles)
+                    try:
+                        tree = ast.parse(text)
+                    except (SyntaxError, ValueError):
+                        continue  # not a module CPython accepts
+                    cd = {"family": "separators", "template": tname, "char": repr(c), "newline": repr(nl)}
+                    try:
+                        mod = g.GriffeLoader(search_paths=[d], allow_inspection=False).load("sepm")
+                    except Exception as e:  # noqa: BLE001
+                        acc.violation(f"separators/raise/{type(e).__name__}", f"load raised {e!r}", cd, None, size=1)
+                        continue
+                    tlines = text.split("\n")
+                    bad = []
+                    for node in ast.walk(tree):
+                        if not isinstance(node, (ast.FunctionDef, ast.ClassDef)):
+                            continue
+                        obj = mod.members.get(node.name) or mod.members["K"].members.get(node.name)
+                        want = textwrap.dedent("\n".join(tlines[node.lineno - 1 : node.end_lineno]))
+                        got = None if obj is None else obj.source
+                        if got != want:
+                            bad.append(("source", node.name, got, want))
+                        wdoc = ast.get_docstring(node)
+                        gdoc = None if obj is None or obj.docstring is None else obj.docstring.value
+                        if gdoc != wdoc:
+                            bad.append(("docstring", node.name, gdoc, wdoc))
+                    acc.case(cd, outcome="separators:" + ("ok" if not bad else bad[0][0]), nontrivial=True)
+                    acc.observe([b[:2] for b in bad])
+                    if bad:
+                        what = "form-feed" if c == "\x0c" else "newline-style" if c == "" else "other-separator"
+                        acc.violation(f"separators/{bad[0][0]}/{what}/{tname}", f"{bad[0][1]}.{bad[0][0]} is {bad[0][2]!r}, the file says {bad[0][3]!r}", cd, None, size=len(raw))
+
+
 def run_shard(shard, tier):
     env = _setup()
     acc = Acc()
     if shard == 0:
         _run_reloads(env, acc)
+    if shard == 1:
+        _run_separators(env, acc)
     for idx, case in enumerate(all_cases(tier)):
         if idx % NSHARDS != shard:
             continue
@@ -937,8 +1000,8 @@ def _detuple(x):
 def replay(case):
     env = _setup()
     acc = Acc()
-    if isinstance(case, dict) and case.get("family") == "reload":
-        _run_reloads(env, acc)
+    if isinstance(case, dict) and case.get("family") in ("reload", "separators"):
+        (_run_reloads if case["family"] == "reload" else _run_separators)(env, acc)
         return [(k, v["summary"], v["detail"]) for k, v in acc.violations.items()]
     run_case(env, acc, _detuple(case["case"]))
     return [(k, v["summary"], v["detail"]) for k, v in acc.violations.items()]
